@@ -27,7 +27,8 @@ Definition run_gen (l : list Z) : list Z :=
   match dec_gen l with
   | Some (dp, g, li, vi, ei, rest) =>
       if dp =? 0 then cont_cfg g li ++ host_cfg g vi (tbl_of ei) ++ eni_cfg g ei (tbl_of ei)
-      else match observed rest with Some o => o | None => bad end      (* the other datapaths are judged by the clauses only *)
+      else if dp =? 1 then ipvlan_cont_cfg g li
+      else match observed rest with Some o => o | None => bad end      (* exclusive ENI and vlan: judged by the clauses only *)
   | None => bad
   end.
 
@@ -77,6 +78,9 @@ Definition gen_why (l o : list Z) : Z :=
       let '(c, rest) := dec_conf o in
       (* the multi-network variant keeps its default route in the interface's own table: the main table has none *)
       if negb (cont_ok g c) then 1303
+      (* 1308: a pod on a trunk member interface (vlan stripping) holds host addresses only: nothing of its vSwitch is
+         on-link, everything leaves through the gateway *)
+      else if (dp =? 1) && g_strip g && negb (forallb (fun a => nth0 a 2 =? maxlen (nth0 a 0)) (c_addrs c)) then 1308
       else if dp =? 0 then
         let '(h, rest2) := dec_conf rest in
         let '(e, _) := dec_conf rest2 in
